@@ -435,11 +435,7 @@ func (fr *Frame) callContract(bc *BoundContract, args []Val, p token.Pos) []Val 
 			if f.lastCalled == nil {
 				f.lastCalled = map[string]*Term{}
 			}
-			if prev, ok := f.lastCalled[cname]; ok {
-				f.lastCalled[cname] = b.Or(prev, fr.reach)
-			} else {
-				f.lastCalled[cname] = fr.reach
-			}
+			f.lastCalled[cname] = b.Or(calledTerm(b, f.lastCalled, cname), fr.reach)
 		}
 		fr.lastRets[cname] = res
 		names := map[string]int{}
